@@ -295,6 +295,24 @@ def process_unit(u, findings, workdir, seed, rlimit_mult=1, variants=('main', 's
 
 
 def _process_unit(u, findings, workdir, seed, rlimit_mult=1, variants=('main', 'strict', 'canary')):
+    """One pass; if the only trouble is front-end (tool) errors that all sit inside extracted items, and the unit has other items,
+    those items are set aside and the rest of the unit is checked once more: a construct outside the verifier's subset in one function
+    must not hide a failed obligation in another.  The items set aside stay undecided (they are named in the notes)."""
+    ur = _process_unit_once(u, findings, workdir, seed, rlimit_mult, variants)
+    culprits = getattr(ur, 'tool_error_items', None)
+    if culprits and not any(fl for fl in ur.failures.values()) and len(culprits) < len(u.items) and all(c is not None for c in culprits):
+        u.excluded_items = set(culprits)
+        ur2 = _process_unit_once(u, findings, workdir, seed, rlimit_mult, variants)
+        if not getattr(ur2, 'tool_error_items', None):
+            for it in culprits:
+                ur2.undecided.append('item %s set aside after a tool error confined to it: %s' % (it.name, '; '.join(x[:300] for x in ur.undecided if 'tool error' in x)[:600]))
+            ur2.items_set_aside = [it.name for it in culprits]
+            return ur2
+        u.excluded_items = set()
+    return ur
+
+
+def _process_unit_once(u, findings, workdir, seed, rlimit_mult=1, variants=('main', 'strict', 'canary')):
     ur = UnitRun(u)
     if getattr(u, 'kani_only', False):
         ur.ledger = {}
@@ -347,6 +365,20 @@ def _process_unit(u, findings, workdir, seed, rlimit_mult=1, variants=('main', '
                 ur.undecided.append('%s: rlimit: %s' % (v, d.get('message', '')[:200]))
             elif c == 'tool':
                 ur.undecided.append('%s: tool error: %s' % (v, (d.get('rendered') or d.get('message', ''))[:600]))
+                if v == 'main':
+                    # which extracted item does the error sit in?  (None: prelude / glue, or no span in this file)
+                    it = None
+                    for sp in [x for x in d.get('spans', []) if x.get('is_primary')] or d.get('spans', []):
+                        if os.path.basename(sp.get('file_name', '')) != os.path.basename(ur.files[v]):
+                            continue
+                        li = sp.get('line_start', 0) - 1
+                        if 0 <= li < len(table) and table[li].kind == 'item':
+                            it = table[li].item
+                            break
+                    if not hasattr(ur, 'tool_error_items'):
+                        ur.tool_error_items = []
+                    if it not in ur.tool_error_items:
+                        ur.tool_error_items.append(it)
         ur.failures[v] = fl
     # canary accounting
     if 'canary' in ur.results and not ur.results['canary']['timeout']:
